@@ -166,6 +166,9 @@ def random_expr(r, depth, kids=None):
         if c.startswith('*'):
             c = 'a'
         args.append('(' + c + ')')
+    if tag in ('Pow', 'LShift', 'Mult') and n == 2:
+        # keep the interpreter's own compile-time folding cheap (2.7's peephole has no size limit)
+        args[1] = r.choice(['(2)', '(a)', '(-1)', '(0.5)'])
     return t.format(*args)
 
 
